@@ -250,6 +250,10 @@ func (fr *frame) pureCall(callee *ssa.Function, args []Val, resT types.Type) Val
 		}
 		v := Val{T: t, S: s}
 		vc.assume(implies(fr.guard, vc.wf(v, fr.mem)))
+		if errorConstructors[callee.String()] && vc.sortOf(t) == sIface {
+			// fmt.Errorf, errors.New, ... never return nil
+			vc.assume(not(eq(app("itag", s), "0")))
+		}
 		return v
 	}
 	if isTup {
@@ -1695,3 +1699,7 @@ func (env *SpecEnv) letVal(name string, v Val) Val {
 	v.S = env.vc.defineConst("let:"+name, srt, v.S)
 	return v
 }
+
+// errorConstructors: library functions that always return a non-nil error
+var errorConstructors = map[string]bool{"fmt.Errorf": true, "errors.New": true,
+	"github.com/pkg/errors.New": true, "github.com/pkg/errors.Errorf": true}
